@@ -332,8 +332,14 @@ class Gen:
     return ['slc', x, w, num(rng, lo), num(rng, lo + n)], n
 
   def soft(self, w, d):
-    """operand for a w-bit context: a hard term or an implicit one that fits"""
-    if self.rng.random() < 0.35: return self.literal(w)
+    """operand for a w-bit context: a hard term, an implicit one that fits, or an if-expression with one
+    literal branch (typed explicit, may hold a Python int)"""
+    r = self.rng.random()
+    if r < 0.33: return self.literal(w)
+    if r < 0.45 and d > 0:
+      t, f = self.hard(w, d - 1), self.literal(w)
+      if self.rng.random() < 0.4: t, f = f, t
+      return ['ite', self.cond(d - 1), t, f]
     return self.hard(self.width_near(w), d)
 
   def cond(self, d):
@@ -374,8 +380,8 @@ class Gen:
     if ch < 0.46 and w == 1:
       return ['red', rng.choice(['and', 'or', 'xor']), self.hard(rng.choice(WIDTHS[:9]), d - 1)]
     if ch < 0.54:
-      t, f = self.hard(w, d - 1), (self.hard(self.width_near(w), d - 1) if rng.random() < 0.6 else self.literal(w))
-      if rng.random() < 0.3: t, f = f, t
+      t, f = self.hard(w, d - 1), self.hard(self.width_near(w), d - 1)
+      if self.bad(): f = self.literal(w)
       return ['ite', self.cond(d - 1), t, f]
     if ch < 0.60: return ['un', 'inv', self.hard(w, d - 1)]
     if ch < 0.67:
@@ -427,7 +433,8 @@ class Gen:
     if r < 0.55 or d <= 0:
       tgt, w = self.target()
       rr = rng.random()
-      if rr < 0.22: rhs = self.literal(w)
+      if rr < 0.2: rhs = self.literal(w)
+      elif rr < 0.35: rhs = self.soft(w, rng.randint(1, 3))
       else: rhs = self.hard(self.width_near(w), rng.randint(0, 3))
       return ['asg', tgt, rhs]
     if r < 0.70:
@@ -552,6 +559,13 @@ def gen_finding(rng, uid, which):
   elif which == 'N4':
     hi = (1 << w) - 1
     block = [['asg', O, ['bin', 'add', ['ite', C, A, num(rng, hi)], ['ite', C, B, num(rng, rng.randint(1, hi))]]]]
+  elif which == 'N5':
+    wd = w + rng.randint(1, 4)
+    d = g.new_in(wd); o1 = g.new_out(1)
+    cmp = ['cmp', rng.choice(list(CMPOP)), A, B]
+    D = ['sig', d[0], wd]
+    if rng.random() < 0.6: block = [['asg', ['sig', o1[0], 1], ['ite', C, cmp, D]]]
+    else: block = [['tasg', 0, cmp], ['asg', ['sig', o1[0], 1], ['ite', C, ['tmp', 0], D]]]
   else:
     raise ValueError(which)
   return {'uid': uid, 'stream': which, 'sigs': g.sigs, 'block': block}
